@@ -388,13 +388,13 @@ Proof.
     + discriminate.
 Qed.
 
-(* the extra-byte loop of read_line (UTF-16LE line feed) *)
-Lemma read_extra_bytes_ok : forall fuel r buf buf' r',
-  reader_ok r -> bytes_ok buf -> read_extra fuel r buf = IoDone (buf', r') ->
+(* the extra-byte loop of read_line (UTF-16LE line feed), on the reader *)
+Lemma read_extra_r_bytes_ok : forall fuel r buf buf' r',
+  reader_ok r -> bytes_ok buf -> read_extra_r fuel r buf = IoDone (buf', r') ->
   bytes_ok buf' /\ reader_ok r'.
 Proof.
   induction fuel as [|f IH]; intros r buf buf' r' Hr Hbuf H; [discriminate|].
-  rewrite read_extra_S in H. destruct (fill_buf r) as [[a| |k] r1] eqn:Hfb.
+  rewrite read_extra_r_S in H. destruct (fill_buf r) as [[a| |k] r1] eqn:Hfb.
   - destruct (fill_buf_ok _ _ _ Hr Hfb) as (Hr1 & Ha).
     destruct a as [|x t]; inversion H; subst buf' r'; clear H.
     + split; assumption.
@@ -404,15 +404,61 @@ Proof.
   - discriminate.
 Qed.
 
-Lemma read_bom_reader_ok : forall fuel r e r',
-  reader_ok r -> read_bom fuel r = IoDone (e, r') -> reader_ok r'.
+(* the Chain of the bytes read_bom took and the reader *)
+Definition chain_ok (c : chain) : Prop := bytes_ok (pending c) /\ reader_ok (second c).
+
+Lemma chain_read_until_bytes_ok : forall fuel d c buf buf' c',
+  chain_ok c -> bytes_ok buf -> chain_read_until fuel d c buf = IoDone (buf', c') ->
+  bytes_ok buf' /\ chain_ok c'.
 Proof.
-  induction fuel as [|f IH]; intros r e r' Hr H; [discriminate|].
-  rewrite read_bom_S in H. destruct (fill_buf r) as [[a| |k] r1] eqn:Hfb.
+  intros fuel d [p dn r] buf buf' c' [Hp Hr] Hbuf H. rewrite chain_read_until_eq in H.
+  cbn [pending done_first second] in *. destruct dn.
+  - apply lift_done in H. destruct H as (r' & H & ->).
+    destruct (read_until_bytes_ok _ _ _ _ _ _ Hr Hbuf H) as (Hb & Hr').
+    split; [exact Hb|split; assumption].
+  - destruct (memchr d p) as [i|].
+    + inversion H; subst buf' c'; clear H. split.
+      * apply bytes_ok_app. split; [assumption|apply bytes_ok_firstn; assumption].
+      * split; [apply bytes_ok_skipn; assumption|assumption].
+    + apply lift_done in H. destruct H as (r' & H & ->).
+      assert (Hbp : bytes_ok (buf ++ p)) by (apply bytes_ok_app; split; assumption).
+      destruct (read_until_bytes_ok _ _ _ _ _ _ Hr Hbp H) as (Hb & Hr').
+      split; [exact Hb|split; [constructor|assumption]].
+Qed.
+
+Lemma read_extra_bytes_ok : forall fuel c buf buf' c',
+  chain_ok c -> bytes_ok buf -> read_extra fuel c buf = IoDone (buf', c') ->
+  bytes_ok buf' /\ chain_ok c'.
+Proof.
+  intros [|f] [p dn r] buf buf' c' [Hp Hr] Hbuf H; [discriminate|]. rewrite read_extra_eq in H.
+  cbn [pending done_first second] in *. destruct dn.
+  - apply lift_done in H. destruct H as (r' & H & ->).
+    destruct (read_extra_r_bytes_ok _ _ _ _ _ Hr Hbuf H) as (Hb & Hr').
+    split; [exact Hb|split; assumption].
+  - destruct p as [|x t].
+    + apply lift_done in H. destruct H as (r' & H & ->).
+      destruct (read_extra_r_bytes_ok _ _ _ _ _ Hr Hbuf H) as (Hb & Hr').
+      split; [exact Hb|split; [constructor|assumption]].
+    + inversion H; subst buf' c'; clear H. inversion Hp; subst. split.
+      * apply bytes_ok_app. split; [assumption|]. constructor; [assumption|constructor].
+      * split; assumption.
+Qed.
+
+(* read_bom: the bytes it keeps are bytes of the stream *)
+Lemma read_bom_reader_ok : forall fuel r head e h r',
+  reader_ok r -> bytes_ok head -> read_bom fuel r head = IoDone (e, h, r') ->
+  bytes_ok h /\ reader_ok r'.
+Proof.
+  induction fuel as [|f IH]; intros r head e h r' Hr Hh H; rewrite read_bom_unfold in H;
+    destruct (length head <? min_bom_len)%nat;
+    try (rewrite bom_finish_eq in H; inversion H; subst; split; [apply bytes_ok_skipn|]; assumption);
+    [discriminate|].
+  destruct (fill_buf r) as [[a| |k] r1] eqn:Hfb.
   - destruct (fill_buf_ok _ _ _ Hr Hfb) as (Hr1 & Ha).
-    destruct ((min_bom_len <=? length a)%nat || (length a =? 0)%nat).
-    + inversion H; subst e r'; clear H. apply consume_ok; assumption.
-    + apply IH in H; [exact H|apply consume_ok; assumption].
+    destruct a as [|x t].
+    + rewrite bom_finish_eq in H. inversion H; subst. split; [apply bytes_ok_skipn|]; assumption.
+    + apply IH in H; [exact H|apply consume_ok; assumption|].
+      apply bytes_ok_app. split; [assumption|apply bytes_ok_firstn; assumption].
   - destruct (fill_buf_ok _ _ _ Hr Hfb) as (Hr1 & _). apply IH in H; assumption.
   - discriminate.
 Qed.
@@ -426,16 +472,16 @@ Proof.
   inversion H; subst. apply scalar_trim_end. apply (decode_scalar _ _ _ Hb D).
 Qed.
 
-Definition decoder_ok (d : decoder) : Prop := reader_ok (inner d) /\ bytes_ok (read_buf d).
+Definition decoder_ok (d : decoder) : Prop := chain_ok (inner d) /\ bytes_ok (read_buf d).
 
 Lemma read_line_scalar : forall fuel d o d',
-  reader_ok (inner d) -> read_line fuel d = IoDone (o, d') ->
+  chain_ok (inner d) -> read_line fuel d = IoDone (o, d') ->
   decoder_ok d' /\ match o with Some l => scalar_str l | None => True end.
 Proof.
   intros fuel d o d' Hr H. unfold read_line in H.
-  destruct (read_until fuel LF (inner d) []) as [[buf r]|k|w|] eqn:RU; cbn [io_bind] in H;
+  destruct (chain_read_until fuel LF (inner d) []) as [[buf r]|k|w|] eqn:RU; cbn [io_bind] in H;
     try discriminate.
-  destruct (read_until_bytes_ok _ _ _ _ _ _ Hr bytes_ok_nil RU) as (Hbuf & Hr1).
+  destruct (chain_read_until_bytes_ok _ _ _ _ _ _ Hr bytes_ok_nil RU) as (Hbuf & Hr1).
   destruct buf as [|x t].
   - inversion H; subst o d'; clear H. split; [split; [assumption|constructor]|exact I].
   - destruct (enc_is_le (enc d) && ends_with_lf (x :: t)).
@@ -454,7 +500,7 @@ Proof.
 Qed.
 
 Lemma lines_loop_scalar : forall n fuel d lines,
-  reader_ok (inner d) -> lines_loop n fuel d = IoDone lines -> Forall scalar_str lines.
+  chain_ok (inner d) -> lines_loop n fuel d = IoDone lines -> Forall scalar_str lines.
 Proof.
   induction n as [|n IH]; intros fuel d lines Hr H; [discriminate|].
   cbn [lines_loop] in H.
@@ -471,10 +517,10 @@ Theorem read_all_lines_scalar_gen : forall r lines,
   reader_ok r -> read_all_lines r = IoDone lines -> Forall scalar_str lines.
 Proof.
   intros r lines Hr H. unfold read_all_lines, decoder_new in H.
-  destruct (read_bom (S (S (msr r))) r) as [[e r1]|k|w|] eqn:RB; cbn [io_bind] in H;
+  destruct (read_bom (S (S (msr r))) r []) as [[[e h] r1]|k|w|] eqn:RB; cbn [io_bind] in H;
     try discriminate.
-  pose proof (read_bom_reader_ok _ _ _ _ Hr RB) as Hr1.
-  apply lines_loop_scalar in H; [exact H|exact Hr1].
+  destruct (read_bom_reader_ok _ _ _ _ _ _ Hr bytes_ok_nil RB) as (Hh & Hr1).
+  apply lines_loop_scalar in H; [exact H|split; assumption].
 Qed.
 
 Theorem read_all_lines_scalar : forall (b : bytes) sched lines,
@@ -534,10 +580,8 @@ Theorem decode_stream_scalar : forall b lines,
   bytes_ok b -> decode_stream b = IoDone lines -> Forall scalar_str lines.
 Proof.
   intros b lines Hb H. unfold decode_stream in H.
-  destruct (length b <? min_bom_len)%nat.
-  - inversion H; subst. constructor.
-  - destruct (from_bom b) as [e c].
-    apply (lines_pure_scalar _ _ _ _ (bytes_ok_skipn c b Hb) H).
+  destruct (from_bom b) as [e c].
+  apply (lines_pure_scalar _ _ _ _ (bytes_ok_skipn c b Hb) H).
 Qed.
 
 (* ------------------------------------------------------------------ *)
